@@ -117,6 +117,11 @@ def token_shape(rule, nonterminal, n):
     return Shape(f"tok:{rule}[{n}]", [None] * n, False, None, (rule, nonterminal))
 
 
+ESC_CHARS = [(0x5C, 0x5C), (0x22, 0x22), (0x75, 0x75), (0x7B, 0x7B), (0x7D, 0x7D), (0x30, 0x39), (0x41, 0x46), (0x61, 0x66),
+             (0x6E, 0x6E), (0x2F, 0x2F), (0x20, 0x20), (0x01, 0x01), (0x7F, 0x7F)]
+NAME_CHARS = [(0x61, 0x7A), (0x30, 0x39), (0x2D, 0x2D)]  # a-z 0-9 '-' : holes that hold a control name
+
+
 def shapes_for(pid, tier):
     out = []
     if pid == "C07":
@@ -134,26 +139,32 @@ def shapes_for(pid, tier):
             out += [template("map", "a={", h, "}") for h in (6,)]
             out += [template("tag", "a=#6.", h, "(b)") for h in (5,)]
             out += [template("bytes", "a='", h, "'") for h in (4,)]
+            out += [template("cutkey", "a={(", h, ")^=>b}") for h in (1, 3)]
+            out += [template("cutkeyarr", "a=[(", h, ")^=>b]") for h in (1,)]
             out += [free(n, True) for n in (4, 6)]
         else:
-            out += [template("ctl", "a=b .", h, " 1") for h in range(2, 12)]
+            out += [template("ctl", "a=b .", h, " 1") for h in range(2, 9)]
+            out += [template("ctlname", "a=b .", h, " 1", alphabet=NAME_CHARS) for h in range(9, 12)]
             out += [template("rule2", "a=1", h, "b=2") for h in range(0, 5)]
-            out += [template("arr", "a=[", h, "]") for h in range(5, 9)]
-            out += [template("map", "a={", h, "}") for h in range(5, 9)]
+            out += [template("arr", "a=[", h, "]") for h in range(5, 8)]
+            out += [template("map", "a={", h, "}") for h in range(5, 8)]
             out += [template("par", "a=(", h, ")") for h in range(5, 8)]
             out += [template("tag", "a=#6.", h, "(b)") for h in range(1, 7)]
             out += [template("hash", "a=#", h, "") for h in range(1, 6)]
             out += [template("gp", "a<", h, ">=b") for h in range(1, 6)]
             out += [template("ga", "a=b<", h, ">") for h in range(1, 6)]
             out += [template("rng", "a=", h, "..9") for h in range(1, 5)]
-            out += [template("cutkey", "a={(", h, ")^=>b}") for h in range(1, 5)]
+            out += [template("cutkey", "a={(", h, ")^=>b}") for h in range(1, 6)]
+            out += [template("cutkeyarr", "a=[(", h, ")^=>b]") for h in range(1, 5)]
             out += [free(n, True) for n in range(2, 8)]
     if pid in ("C03", "C07"):
         # text and byte-string literals: escapes, controls, quotes
-        hs = (6, 8) if tier == "quick" else range(0, 13)
+        hs = (6, 8) if tier == "quick" else range(0, 9)
         out += [template("text", 'a="', h, '"') for h in hs]
+        # longer holes over the characters escapes are made of (reaches \\uD83D\\uDE00 and \\u{10FFFF})
+        out += [template("textesc", 'a="', h, '"', alphabet=ESC_CHARS) for h in (((12,) if pid == "C07" else ()) if tier == "quick" else range(9, 14))]
         if tier == "thorough":
-            out += [template("bytes", "a='", h, "'") for h in range(0, 7) if h != 4 or pid != "C03"]
+            out += [template("bytes", "a='", h, "'") for h in range(0, 7)]
         elif pid == "C07":
             out += [template("bytes", "a='", h, "'") for h in (4,)]
         if tier == "thorough":
@@ -183,6 +194,9 @@ class Query:
         self.rules = rules
         self.ctl = ctl
         self.base = list(self.pe.defs) + peg.alphabet_constraints(self.S, shape.utf8)
+        if shape.hole_alphabet:
+            for v in self.sym:
+                self.base.append(z3.Or([z3.And(z3.UGE(v, lo), z3.ULE(v, hi)) for lo, hi in shape.hole_alphabet]))
         self.oracles = {}
 
     def oracle(self, switches, tag):
